@@ -108,9 +108,9 @@ def main():
     only = [a for a in sys.argv[1:] if not a.startswith("--")]
     seeds = sorted(x for x in os.listdir(SEEDED) if os.path.isdir(os.path.join(SEEDED, x)))
     if only:
-        seeds = [s for s in seeds if any(s.startswith(o) for o in only)]
+        seeds = [s for s in seeds if any(s == o or (o.endswith("*") and s.startswith(o[:-1])) for o in only)]
     os.makedirs(SW, exist_ok=True)
-    workers = 5 if suite else 10
+    workers = 5 if suite else 8
     with cf.ThreadPoolExecutor(workers) as ex:
         for r in ex.map(lambda s: evaluate(s, suite), seeds):
             prop = r["seed"].split("_")[0]
